@@ -43,7 +43,7 @@ def check_last_poll(v, cases, impl):
 
 
 def run(v, tier, seed, replay):
-    cases, impl, model = seqcheck.run(v, tier, seed, replay, "C13", ["C13"], tree_oracles=["no_panic", "exactly_once", "tree", "contexts", "attachments", "retained"],
+    cases, impl, model = seqcheck.run(v, tier, seed, replay, "C13", ["C13"], tree_oracles=["no_panic", "exactly_once", "tree", "contexts", "attachments_owner", "retained"],
                                       knobs=knobs, extra_cases=extra_for(KINDS), n_quick=(1800, 300), n_thorough=(60000, 5000),
                                       nontrivial=lambda lines, tr: any(" adPoll " in l for l in lines),
                                       assumptions=["adapters are polled by hand with a no-op waker; the inner future is scripted by the driver and runs arbitrary API calls inside the adapter's poll",
